@@ -17,14 +17,18 @@ D10 == "D10-temporary-shared-across-activations"
 D20 == "D20-apply-extra-arguments-handed-to-hook"
 
 Judge(r) ==
-  \E why \in {Why(r.inlog, r.outlog, r.inout, r.outout)} :
+  \E why \in {Why(r.inlog, r.outlog, r.inout, r.outout, r.primfault)} :
   \E hookwhys \in {{HookWhyDyn(r.hooks[i], r.outlog) : i \in 1..Len(r.hooks)} \ {""}} :
   LET sdev == {r.statdevs[i] : i \in 1..Len(r.statdevs)}
       nontrivial == Len(r.inlog) > 0
-      \* permitted: <path>.call|apply(..) whose path value is nullish throws TypeError when .call is
-      \* read; the output reads it after having evaluated the this-argument / arguments
-      callReadVsArgs == /\ r.protocall /\ r.inout = r.outout /\ r.inout.k = "throw" /\ r.inout.v = "TypeError"
-                        /\ IsPrefixOf(Strip(r.inlog), Strip(r.outlog))
+      \* permitted for <path>.m.call|apply(this, ..): reading the path (and .call/.apply on it) vs.
+      \* evaluating the this-argument and arguments.  Same effects in another order; or, when the run
+      \* throws in between, one log is a prefix of the other
+      callReadVsArgs == /\ r.protocall /\ r.inout = r.outout
+                        /\ \/ BagEq(Strip(r.inlog), Strip(r.outlog))
+                           \/ /\ r.inout.k = "throw"
+                              /\ \/ IsPrefixOf(Strip(r.inlog), Strip(r.outlog))
+                                 \/ IsPrefixOf(Strip(r.outlog), Strip(r.inlog))
   IN
   \* ---- C01
   /\ IF why = "" \/ callReadVsArgs THEN Verdict(r.rid, "C01", IF nontrivial THEN "ok" ELSE "ok0", r.sid)
